@@ -162,7 +162,34 @@ _ADD_LEVEL = {
 }
 for _k, _v in _ADD_LEVEL.items():
     LEVEL[_k] = LEVEL[_k] + _v
+# ---- third session: rule families added after the third seeding round (DESIGN.md C9) ----
+_ADD_LEVEL3 = {
+    "C01": " Added: collections of segment-local numbers (list(self.matches())) are tracked to their sinks like single numbers.",
+    "C02": " Added: FileStorage.rename_file, the publishing step, has no file-system effect besides exists/remove/one rename.",
+    "C04": " Added: every _finish()/lock release in the segment writers is dominated by _check_state() (for private helpers: at "
+           "every call site); a descriptor handed to os.close() is not kept in the lock object.",
+    "C08": " Added: column_reader consults `translate` on every returning path.",
+    "C09": " Added: no object takes over another object's __dict__; SearchContext.set() writes only to a copy; quantities for which 0 "
+           "is a value are never tested by truthiness (C10-R7).",
+    "C10": " Added: zero-is-a-value discipline (reviewed attribute table, None-initialised numeric locals, `get(k) or numeric default`); "
+           "every format's word_values scales the emitted weight by field_boost; the ordered-hash typecode -> getter table (C20-R8).",
+    "C11": " Added: re-construction completeness for settings (every self.__class__(...) binds every stateful constructor parameter, per "
+           "concrete class); whatever copy() calls receives copies of the children.",
+    "C14": " Added: per-segment hooks never keep the previous segment's state conditionally on that state; the eviction rule is stated on "
+           "branch facts (disjunctive) instead of one spelling.",
+    "C15": " Added: re-construction completeness over every query class (normalize/apply/simplify/...), argument names agree with the "
+           "parameter they are bound to (whole program), __eq__ demands class identity, estimate_size() is monotone in the upper bounds "
+           "it is computed from.",
+    "C16": " Added: nothing outside whoosh.fields reads a Schema's private field tables (dynamic fields are only visible through the interface).",
+    "C17": " Added: every tokenize()/process_text() call in the query parser passes mode=\"query\" (per call, not per function).",
+    "C18": " Added: no IndexWriter operation, as resolved for AsyncWriter, consults the index when it is called.",
+    "C19": " Added: ReaderCorrector asks terms_within about the field's spelling_fieldname().",
+    "C20": " Added: typecode -> StructFile getter table of the ordered hash reader, computed case by case.",
+}
+for _k, _v in _ADD_LEVEL3.items():
+    LEVEL[_k] = LEVEL[_k] + _v
 for _k in list(NOTE):
     NOTE[_k] = NOTE[_k] + (" All rules are invariant under the ten behaviour-preserving whole-tree transformations of tools/robust.py "
-                           "and silent on the 78 confirmed refactorings under benign/ (thorough tier); detection of an unseen "
-                           "regression was 33% in the last independent seeding round before the rules were strengthened (DESIGN.md C2).")
+                           "and silent on the 138 confirmed refactorings under benign/ (thorough tier). Independent seeding rounds: an unseen "
+                           "regression was caught in 19/40, 20/60 and 23/60 cases before the rules were strengthened; an unseen refactoring "
+                           "raised a false alarm in 27/80 and 27/57 cases before the machinery was corrected (DESIGN.md C2, C8).")
